@@ -106,14 +106,17 @@ fn main() {
         let n = 2 + r.below(maxn as u64 - 1) as usize;
         let kind = r.below(5);
         let k = 1 + r.below(std::cmp::min(n, 5) as u64) as usize;
-        let x = gen_data(&mut r, n, d, kind);
+        // magnitude family: the arithmetic is modelled bit for bit, so any scale is fair game; tiny scales
+        // expose absolute-epsilon shortcuts, large ones lossy accumulations
+        let scale = *r.pick(&[1.0, 1.0, 1.0, 1e-9, 3e-8, 1e-4, 1e7]);
+        let x: Vec<Vec<f64>> = gen_data(&mut r, n, d, kind).into_iter().map(|row| row.into_iter().map(|v| v * scale).collect()).collect();
         let m = *r.pick(&mets);
         let xa = arr(&x);
         // queries: fresh points, stored points, midpoints of stored points (ties between centroids are likely on lattices)
         let mut q: Vec<Vec<f64>> = Vec::new();
         for _ in 0..4 {
             match r.below(3) {
-                0 => q.push((0..d).map(|_| r.range(-20, 20) as f64 * 0.5).collect()),
+                0 => q.push((0..d).map(|_| r.range(-20, 20) as f64 * 0.5 * scale).collect()),
                 1 => q.push(x[r.below(n as u64) as usize].clone()),
                 _ => {
                     let a = &x[r.below(n as u64) as usize];
@@ -123,12 +126,13 @@ fn main() {
             }
         }
         let qa = arr(&q);
-        let tol = *r.pick(&[1e-4, 1e-2, 0.0_f64.max(1e-12), 1.0]);
+        let tol = *r.pick(&[1e-4, 1e-2, 1e-12, 1.0]) * scale;
         let stream = r.below(4);
         let mname = format!("{:?}", m);
         let seed = r.below(1000);
         let mut fits: Vec<String> = Vec::new();
-        let mut tags: Vec<String> = vec![format!("metric_{}", mname), format!("kind_{}", kind)];
+        let mut tags: Vec<String> = vec![format!("metric_{}", mname), format!("kind_{}", kind), format!("scale_{:e}", scale)];
+        out.bump(&format!("scale_{:e}", scale));
         let mut series = 0;
         let mut bbox = true;
         let mut failed: Option<String> = None;
@@ -141,7 +145,7 @@ fn main() {
                     idx[..k].iter().map(|&i| x[i].clone()).collect()
                 } else {
                     bbox = false;
-                    (0..k).map(|_| (0..d).map(|_| r.range(-30, 30) as f64).collect()).collect()
+                    (0..k).map(|_| (0..d).map(|_| r.range(-30, 30) as f64 * scale).collect()).collect()
                 };
                 tags.push("init_precomputed".into());
                 if m == Met::L2 { series = 1; }
@@ -180,8 +184,8 @@ fn main() {
             }
         }
         let desc = format!(
-            "{{\"n\": {}, \"d\": {}, \"k\": {}, \"metric\": {}, \"kind\": {}, \"stream\": {}, \"seed\": {}, \"tol\": {:e}, \"fits\": {}, \"X_first_row\": {:?}}}",
-            n, d, k, jstr(&mname), kind, stream, seed, tol, fits.len(), x[0]
+            "{{\"n\": {}, \"d\": {}, \"k\": {}, \"metric\": {}, \"kind\": {}, \"stream\": {}, \"seed\": {}, \"tol\": {:e}, \"scale\": {:e}, \"fits\": {}, \"X_first_row\": {:?}}}",
+            n, d, k, jstr(&mname), kind, stream, seed, tol, scale, fits.len(), x[0]
         );
         out.bump(&format!("stream_{}", stream));
         out.bump(&format!("metric_{}", mname));
